@@ -3,6 +3,7 @@ import PhyVerif.Driver.C16
 import PhyVerif.Driver.C15
 import PhyVerif.Driver.C07
 import PhyVerif.Driver.C01
+import PhyVerif.Driver.C19
 open Lean PhyVerif.Driver
 
 def dispatch (j : Json) : R Json := do
@@ -13,6 +14,7 @@ def dispatch (j : Json) : R Json := do
   | "C15" => runC15 op j
   | "C07" => runC07 op j
   | "C01" => runC01 op j
+  | "C19" => runC19 op j
   | _ => .error s!"unknown property {p}"
 
 def handle (line : String) : String :=
